@@ -290,10 +290,41 @@ func spanAt(cells []value, i int) (spanByte, bool) {
 	return sb, true
 }
 
+// runAt returns the length of the maximal run of consecutive bytes of one span
+// starting at cells[i] (0 if cells[i] is not a span byte).
+func runAt(cells []value, i int) int {
+	sb, ok := cells[i].(spanByte)
+	if !ok {
+		return 0
+	}
+	n := 1
+	for i+n < len(cells) {
+		o, ok := cells[i+n].(spanByte)
+		if !ok || o.t != sb.t || o.width != sb.width || o.idx != sb.idx+n {
+			break
+		}
+		n++
+	}
+	return n
+}
+
 // intOf builds the big-endian integer of cells[i:i+w].
 func intOf(cells []value, i, w int) *Term {
 	if sb, ok := spanAt(cells, i); ok && sb.width == w {
 		return sb.t
+	}
+	// a run of consecutive bytes of one span: (t div 256^k) mod 256^w
+	if r := runAt(cells, i); r >= w && w > 0 {
+		sb := cells[i].(spanByte)
+		below := sb.width - sb.idx - w // bytes of the span after this run
+		t := sb.t
+		if below > 0 {
+			t = EDiv(t, IntConst(new(big.Int).Lsh(big1, uint(8*below))))
+		}
+		if sb.idx > 0 {
+			t = EMod(t, IntConst(new(big.Int).Lsh(big1, uint(8*w))))
+		}
+		return t
 	}
 	allConc := true
 	for j := 0; j < w; j++ {
@@ -310,12 +341,22 @@ func intOf(cells []value, i, w int) *Term {
 		return IntConst(v)
 	}
 	acc := IntConst64(0)
-	for j := 0; j < w; j++ {
+	for j := 0; j < w; {
+		// nested runs inside a mixed chunk
+		if r := runAt(cells, i+j); r > 1 {
+			if r > w-j {
+				r = w - j
+			}
+			acc = Add(Mul(acc, IntConst(new(big.Int).Lsh(big1, uint(8*r)))), intOf(cells, i+j, r))
+			j += r
+			continue
+		}
 		ct, ok := toTerm(cells[i+j])
 		if !ok {
 			abort("unmodelled", "non-byte cell %T in byte comparison", cells[i+j])
 		}
 		acc = Add(Mul(acc, IntConst64(256)), ct)
+		j++
 	}
 	return acc
 }
@@ -325,14 +366,33 @@ func chunkPairs(xs, ys []value, n int) (cx, cy []*Term, widths []int) {
 	i := 0
 	for i < n {
 		w := 1
-		if sb, ok := spanAt(xs[:n], i); ok {
-			w = sb.width
-		} else if sb, ok := spanAt(ys[:n], i); ok {
-			w = sb.width
-		} else if isConcByte(xs[i]) && isConcByte(ys[i]) {
-			// merge runs of concrete bytes (up to 32) into one chunk
+		rx, ry := runAt(xs[:n], i), runAt(ys[:n], i)
+		switch {
+		case rx > 0 && ry > 0:
+			w = rx
+			if ry < w {
+				w = ry
+			}
+		case rx > 0:
+			w = rx
+		case ry > 0:
+			w = ry
+		case isConcByte(xs[i]) && isConcByte(ys[i]):
 			for i+w < n && w < 32 && isConcByte(xs[i+w]) && isConcByte(ys[i+w]) {
 				w++
+			}
+		}
+		if w > 1 && (rx == 0 || ry == 0) {
+			// the other side must not start a span inside this chunk: cut at its first span byte
+			other := ys
+			if rx == 0 {
+				other = xs
+			}
+			for j := 1; j < w; j++ {
+				if _, isSpan := other[i+j].(spanByte); isSpan && (rx == 0) == (ry != 0) {
+					// leave as is: intOf handles nested runs
+					break
+				}
 			}
 		}
 		cx = append(cx, intOf(xs, i, w))
